@@ -70,11 +70,21 @@ def _sgn_ok(env, x, U, L, strict=True):
     return (x * d > 0) if strict else (x * d >= 0)
 
 
+_SI = z3.Function("SinIntegral", z3.RealSort(), z3.RealSort())
+_CI = z3.Function("CosIntegral", z3.RealSort(), z3.RealSort())
+
+
+def _sici(x):
+    """scipy.special.sici on a symbolic argument: an uninterpreted pair (Si(x), Ci(x))"""
+    e = core.lift_real(x)
+    return SymReal(_SI(e)), SymReal(_CI(e))
+
+
 def _run(env, n, lower, upper, gl, gu):
     roots = []
     eq = _eq()
     if env.mode == "sym":
-        with sym_numpy(env, eqm), patched((eqm, "brentq", _brentq_stub(env, roots)), (eqm, "erf", _Erf())):
+        with sym_numpy(env, eqm), patched((eqm, "brentq", _brentq_stub(env, roots)), (eqm, "erf", _Erf()), (eqm, "sici", _sici)):
             f = eq.getSmoothMonotonicGridFunc(n, lower, upper, grad_lower=gl, grad_upper=gu)
     else:
         f = eq.getSmoothMonotonicGridFunc(n, lower, upper, grad_lower=gl, grad_upper=gu)
